@@ -279,9 +279,10 @@ def tempfile_decorator(func):
             # can't be opened a second time on Windows...see, e.g.,
             # https://github.com/Kotaimen/awscfncli/issues/93
             f = NamedTemporaryFile(mode="r+", suffix=".hdf5", delete=False)
-            f.close()
 
             try:
+                f.close()
+
                 # write samples to tempfile and recursively call this method
                 prior_samples.write(f.name, overwrite=True)
                 kwargs["prior_samples_file"] = f.name
